@@ -101,7 +101,7 @@ def useToks (specs : List String) : UseSt → List String → Option UseSt
     else if t == "+n" then useToks specs { s with rx := { s.rx with nEnv := s.rx.nEnv + 1 } } ts
     else
       match t.splitOn ":" with
-      | ["h", ty] =>
+      | ["H", ty] | ["h", ty] =>   -- H: header-only packet with the EOM status; it is not queued, so the status is irrelevant
         match ty.toNat? with
         | some ty =>
           let (rx', ev) := s.rx.writeHeaderOnly ops { msgType := ty, length := 8 }
